@@ -276,6 +276,12 @@ def rule_D3(ctx, rep, rid='D3', methods=('flush', 'stats')):
         rep.anchor_lost(rid, 'impl MetricSink for QueuingMetricSink')
         return
     items = {it['name']: it['path'] for it in impl[0]['items']}
+    # the handle's own reference to the wrapped sink, by type (Arc<dyn MetricSink ..>)
+    fsink = [f['name'] for f in adt_fields(cad, Q) or [] if 'dyn cadence::sinks::core::MetricSink' in f['ty'] or 'dyncadence::sinks::core::MetricSink' in f['ty'].replace(' ', '')]
+    if len(fsink) != 1:
+        rep.anchor_lost(rid, 'the field of QueuingMetricSink holding the wrapped sink (%s)' % fsink)
+        return
+    fsink = fsink[0]
     for meth in methods:
         if meth not in items:
             rep.bad(rid, 'queuing-%s-delegates' % meth, impl[0]['span']['file'],
@@ -285,7 +291,7 @@ def rule_D3(ctx, rep, rid='D3', methods=('flush', 'stats')):
         rep.analysed(b)
         T = Terms(b)
         calls = [bi for bi, t in b.calls() if not b.blocks[bi]['cleanup'] and callee_is(t, SINK_TRAIT + '::' + meth)
-                 and self_field_name(norm(T.call_term(bi))[2][0]) == 'sink']
+                 and self_field_name(norm(T.call_term(bi))[2][0]) == fsink]
         ok = False
         if len(calls) == 1 and count_events(b, lambda x: x in calls) == {1}:
             # the wrapped sink's method is reached on every path and its result is what the caller gets
@@ -307,10 +313,10 @@ def rule_D3(ctx, rep, rid='D3', methods=('flush', 'stats')):
         r = list(rts)[0]
         if r[0] == 'adt' and r[1] == Q:
             fs = dict(r[3])
-            sink = fs.get('sink')
+            sink = fs.get(fsink)
             arc = _arc_new_of(sink)
             # the closure capture that emits
-            clos = [x for x in walk(fs.get('worker', ())) if x[0] == 'closure']
+            clos = [x for n_, v_ in fs.items() if n_ != fsink for x in walk(v_) if x[0] == 'closure']
             caps = []
             for c_ in clos:
                 for n, v in c_[2]:
